@@ -13,6 +13,7 @@
 mod atoms;
 mod checks;
 mod corpus;
+mod compose;
 #[cfg(feature = "native")]
 mod isolate;
 mod runner;
@@ -35,6 +36,14 @@ fn main() {
     }
     let id = args[1].clone();
     let cmd = args[2].clone();
+    if id == "show-b" {
+        // tsverif show-b <shard> <index> : print a composed program
+        let sh: u64 = cmd.parse().unwrap_or(0);
+        let ix: u64 = args.get(3).and_then(|x| x.parse().ok()).unwrap_or(0);
+        let p = corpus::b_program(sh, ix);
+        println!("{}", compose::render_js(&p.marked));
+        return;
+    }
     if id == "probe" {
         // tsverif probe <file.js> [--gc N] [--path P] [--eval] : print the outcome tuple
         let src = std::fs::read_to_string(&cmd).expect("read");
